@@ -615,3 +615,43 @@ M('k11d-subclass-converts-itself', ['C11'], IN, "class EnumInput(StringInput):\n
   'a subclass of FloatInput converts with float() itself and loses the finiteness test (seed C11-O)')
 M('l6-list-edited-while-iterated', ['C16', 'C05', 'C03'], Y23 + 'f1040_s1.py', "            types = []\n", "            types = []\n            for t_ in types:\n                types.remove(t_)\n", 'L6',
   'a list is edited inside the loop that iterates over it (seed C16-O)')
+
+
+# ------------------------------------------------------------------ behaviour-preserving twins for the rules of rounds 6-8
+M('k0-note-inside-the-request-loop', ['C01', 'C03', 'C04', 'C05', 'C06'], S, "        for form_name in form_names:\n            self._add_form(form_name)\n",
+  "        for form_name in form_names:\n            assert isinstance(form_name, str)\n            self._add_form(form_name)\n", None, 'an assertion inside the loop over the requested forms', expect='silent')
+M('k10-early-return-on-refusal', ['C05', 'C06', 'C13', 'C20'], S,
+  "        if supplied:\n            assert missing.valid(value)\n            self._i[missing.name()] = value\n            self._input_dependencies.meet(missing.name())\n        else:\n            self._refused_input = True\n        return supplied\n",
+  "        if not supplied:\n            self._refused_input = True\n            return supplied\n        assert missing.valid(value)\n        self._i[missing.name()] = value\n        self._input_dependencies.meet(missing.name())\n        return supplied\n",
+  None, '_attempt_input written with an early return for the refusal', expect='silent')
+M('k35-explicit-read-mode', ['C11', 'C13', 'C20'], IN, "            with open(input_config) as config_file:", "            with open(input_config, 'r') as config_file:", None, 'explicit read mode', expect='silent')
+M('k25b-left-justified-names', ['C17'], CLI, "    format_str =\"{:>{width}} | {:12} | {}\"\n", "    format_str =\"{:<{width}} | {:12} | {}\"\n", None, 'names padded on the other side', expect='silent')
+M('k23c-choice-test-negated-in', ['C19'], PFD, "        if value not in self._choices:\n", "        if not (value in self._choices):\n", None, 'the same membership test written with not (... in ...)', expect='silent')
+M('k16-set-sorted-before-join', ['C05'], Y23 + 'f1040_s1.py', "                return (\", \".join(types), sum(income))", "                return (\", \".join(sorted(set(types))), sum(income))", None,
+  'a set that is sorted before it is joined', expect='silent')
+M('l6-iterate-over-a-copy', ['C16', 'C05', 'C03'], Y23 + 'f1040_s1.py', "            types = []\n", "            types = []\n            for t_ in list(types):\n                types.remove(t_)\n", None,
+  'the loop runs over a copy of the list it edits', expect='silent')
+M('k36-default-copied-first', ['C04', 'C05'], S, "        for form_name in form_names:\n            self._add_form(form_name)\n",
+  "        field_names = list(field_names)\n        for form_name in form_names:\n            if '.' in form_name:\n                field_names.append(form_name)\n                continue\n            self._add_form(form_name)\n", None,
+  'the parameter is rebound to a fresh copy before it is appended to', expect='silent')
+M('k27-getter-wraps-in-dict', ['C01', 'C13'], S, "        assert self._done_solving\n        return self._unmet_dependencies(self._field_dependencies)\n",
+  "        assert self._done_solving\n        return dict(self._unmet_dependencies(self._field_dependencies))\n", None, 'the getter returns a copy of the full table', expect='silent')
+M('k9-meet-in-the-else-clause', ['C01', 'C06', 'C13'], S, "            self._v[field.name()] = field.value(form_inputs, form_values)\n            self._field_dependencies.meet(field.name())\n        except values.UnmetDependency as ud:",
+  "            self._v[field.name()] = field.value(form_inputs, form_values)\n            self._field_dependencies.meet(field.name())\n            pass\n        except values.UnmetDependency as ud:", None, 'a pass after the meet', expect='silent')
+M('k21a-renamed-answer', ['C12'], FI, "        v = self._value(inputs, values)\n        if v is None or isinstance(v, str) and v.strip() == \"\":\n            return self._empty_value\n        elif type(v) is not self._type:\n            raise TypeError(f'Field named {self.name()} expected to produce type {self._type}, but found {type(v)}.')\n        return v\n",
+  "        answer = self._value(inputs, values)\n        if answer is None or isinstance(answer, str) and answer.strip() == \"\":\n            return self._empty_value\n        elif type(answer) is not self._type:\n            raise TypeError(f'Field named {self.name()} expected to produce type {self._type}, but found {type(answer)}.')\n        return answer\n",
+  None, 'the local variable of TypedField.value renamed', expect='silent')
+M('k20-renamed-answer', ['C01', 'C05', 'C06', 'C09', 'C11', 'C20'], CLI, "    value = None\n\n    while value is None or not missing.valid(value):\n        try:\n            if value is not None:\n                prompt = \"Invalid input, try again?: \"\n            value = input(prompt)\n        except KeyboardInterrupt:\n            return (None, False)\n\n    return (value, True)\n",
+  "    answer = None\n\n    while answer is None or not missing.valid(answer):\n        try:\n            if answer is not None:\n                prompt = \"Invalid input, try again?: \"\n            answer = input(prompt)\n        except KeyboardInterrupt:\n            return (None, False)\n\n    return (answer, True)\n",
+  None, 'the local variable of prompt_input renamed', expect='silent')
+M('k30-assert-with-message', ['C10'], S, "            assert i not in self._input_map\n", "            assert i not in self._input_map, 'input object registered twice'\n", None, 'a message on the (vacuous) assertion', expect='silent')
+M('r17-flag-and-description-positional', ['C17', 'C11'], Y22 + 'f1099_r.py', "EnumInput('belongs_to', enum.taxpayer_or_spouse, description=\"To whom was this distribution paid?\"),",
+  "EnumInput('belongs_to', enum.taxpayer_or_spouse, False, \"To whom was this distribution paid?\"),", None, 'allow_empty and the description both passed by position, in the right order', expect='silent')
+M('k22b-string-to_string-spelled-out', ['C14', 'C03'], FI, "class StringField(BasicTypedField):\n    def __init__(self, name, value_fn):\n        self._empty_value = \"\"\n        super().__init__(name, value_fn, str)\n",
+  "class StringField(BasicTypedField):\n    def __init__(self, name, value_fn):\n        self._empty_value = \"\"\n        super().__init__(name, value_fn, str)\n\n    def to_string(self, value):\n        return str(value)\n", None,
+  'StringField spells out the inherited to_string', expect='silent')
+M('k11d-subclass-delegates', ['C11'], IN, "class EnumInput(StringInput):\n", "class PercentInput(FloatInput):\n    def value(self, string):\n        return super().value(string.strip().rstrip('%'))\n\nclass EnumInput(StringInput):\n", None,
+  'a subclass of FloatInput that strips a percent sign and delegates the conversion (and the finiteness test) to FloatInput', expect='silent')
+M('r17-inputs-built-by-a-helper', ['C17', 'C05', 'C01'], Y23 + 'f1098.py', "            StringInput('box_8', description=\"Address or description of property securing mortgage\"),", "            _box8(),", None,
+  'one input object is built by a module-level helper function on every call', expect='silent',
+  more=[(Y23 + 'f1098.py', "class Form1098(InputForm):", "def _box8():\n    return StringInput('box_8', description=\"Address or description of property securing mortgage\")\n\nclass Form1098(InputForm):")])
